@@ -98,35 +98,33 @@ def finish(k, scn, viol, extra=None):
     return res
 
 
-READ_WAITS = ("serial.readline", "select")
-IDLE_WAITS = READ_WAITS + ("q.get",)
-
-
 def quiesce(k, env, cap=240.0, extra=0.0):
-    """Block the calling (harness) thread until the line is quiet *and the host has caught up*:
-    nothing in flight on the link, the firmware has nothing scheduled, the port holds no unread
-    bytes, and every read thread is parked inside its read primitive (not stalled or halfway
-    through acting on a line).  A fixed sleep is not enough because injected thread stalls can
-    delay the read thread arbitrarily."""
+    """Block the calling (harness) thread until the line is quiet *and the host has caught up*.
+
+    A fixed sleep is not enough: injected thread stalls can delay the read thread - or the
+    start-up print thread that still owes the final M110 - for longer than any constant.
+    Quiet means: nothing in flight on the link, nothing scheduled in the firmware, no unread
+    bytes in the port, the read thread has had a read time out since the last delivery (it only
+    reads again after acting on the previous line), no print thread alive, and the send thread
+    (if any) has seen its queue empty since the last put.
+    """
     fw, link = env["fw"], env["link"]
     t0 = k.now
-    calm = 0
     while k.now - t0 < cap:
         k.sleep(0.25)
         port = env.get("port")
         unread = bool(getattr(port, "rxq", None)) or bool(getattr(port, "rxbuf", None))
-        me = k.me()
-        others = [t for t in k.threads if t is not me and t.state != "D"]
-        # read threads parked in their read primitive, the send thread parked on its queue, no
-        # print thread alive (connect() may return while its start-up print thread still has
-        # the final M110 to send)
-        parked = all(t.state == "B" and t.why in IDLE_WAITS for t in others)
-        if fw.pending == 0 and link.inflight == 0 and not unread and parked:
-            calm += 1
-            if calm >= 2:
-                break
-        else:
-            calm = 0
+        alive = [t for t in k.threads if t.state != "D"]
+        printing = any(t.name.startswith("print") for t in alive)
+        reader = any(t.name.startswith("read") for t in alive)
+        sender = any(t.name.startswith("send") for t in alive)
+        read_ok = (not reader) or getattr(port, "quiet_reads", 0) >= 1
+        queues = getattr(k, "queues", [])
+        send_ok = all(not q.q for q in queues) and ((not sender) or all(q.quiet_gets >= 1 for q in queues))
+        if fw.pending == 0 and link.inflight == 0 and not unread and not printing and read_ok and send_ok:
+            break
+    else:
+        k.probe("quiesce.cap_reached")
     if extra:
         k.sleep(extra)
     return k.now - t0
